@@ -2,31 +2,161 @@
   C15 — A file writer's output depends only on its own inputs.
   Property theorems (helper lemmas: CRProofs/WriterSM.lean).  Model: CRModel/WriterSM.lean.
 
-  All theorems hold for EVERY content producer `c : Codec Input Node Bytes` (what a scenario, a
-  planning-problem set and the other constructor arguments turn into at a given precision is not
-  looked into), every start state `st` (any files, any global precision, any writer objects already
-  alive) and every history `ops` (any interleaving of constructions and write calls of any length).
+  The model is a MECHANISM on mutable state (global `precision.decimals`; per writer a document that is reset, given a
+  date, appended to node by node — every XML node creator reading the global precision at that moment — and dumped;
+  save / install / restore of the global around the XML loops).  `render` is a separate, pure function of
+  (format, input, method, precision, date).  That the mechanism produces `render` of the writer's OWN constructor
+  arguments is what is proved here (`C15_write_outcome`, via `buildFor_repaired`: loop invariant "the global is the
+  writer's own precision at every formatting site, the document holds this call's nodes only"); for the `legacy` variant
+  of the same mechanism it is false (`C15_legacy_…`).
+
+  Quantification: every content producer `c : Codec …` (objects, node creators that may raise, serialisers, date eraser,
+  reader), every start state (any files, any global precision, any writer objects already alive, with any documents),
+  every history of constructions and write calls of any length, every date per call.
+  Two laws about the content producer are HYPOTHESES where stated (they are about content, i.e. C01–C03's business):
+  `DateLaw` (the date of the call enters a file only through what `eraseDate` erases) and `ReadLaw` (a rendered file
+  reads back to `proj` of what it was rendered from — XML: C01, protobuf: C02); `symCodec` satisfies both.
 -/
 import CRProofs.WriterSM
 namespace CR.Writer
 
-variable {Input Node Bytes : Type}
+variable {Input Item Node Bytes Date Content : Type}
 
-/-! ### The content is `render` of the constructor arguments -/
+/-- The date of the call enters a file only through the date stamp. -/
+structure DateLaw (c : Codec Input Item Node Bytes Date Content) : Prop where
+  xml : ∀ i d d' ns, c.eraseDate (c.dumpXml i d ns) = c.eraseDate (c.dumpXml i d' ns)
+  pb : ∀ i d d' ns, c.eraseDate (c.dumpPb i d ns) = c.eraseDate (c.dumpPb i d' ns)
 
-/-- C15 (a), trace form.  In any history, whenever the `n`-th operation is a write call on writer
-    number `i` and it produced a file, the bytes are `render` of the arguments writer `i` was
-    constructed with (`argsOf st ++ newsOf ops` lists the constructor arguments in order of
-    construction) — whatever else was constructed or written before, in between or on other writers. -/
-theorem C15_output_fn (c : Codec Input Node Bytes) (st : Proc Input Node Bytes) (ops : List (Op Input))
-    (n i : Nat) (kind : Kind) (file : Option String) (mode : Mode) (a : Bool) (p : String) (b : Bytes)
-    (hop : ops[n]? = some (.write i kind file mode a))
+/-- Round trip of rendered content: the file a single call renders reads back, to a value determined by format, input,
+    method and precision alone (C01 for XML, C02 for protobuf; at precision `prec` the value is the input truncated). -/
+structure ReadLaw (c : Codec Input Item Node Bytes Date Content) (proj : Format → Input → Kind → Nat → Content) : Prop where
+  read_render : ∀ fmt inp kind prec date b, render c fmt inp kind prec date = .ok b → c.read b = some (proj fmt inp kind prec)
+
+theorem render_eraseDate (c : Codec Input Item Node Bytes Date Content) (hd : DateLaw c) (fmt : Format) (inp : Input)
+    (kind : Kind) (prec : Nat) (d1 d2 : Date) (b1 b2 : Bytes)
+    (h1 : render c fmt inp kind prec d1 = .ok b1) (h2 : render c fmt inp kind prec d2 = .ok b2) :
+    c.eraseDate b1 = c.eraseDate b2 := by
+  unfold render at h1 h2
+  cases hm : mkNodes (creator c fmt prec) (itemsOf c inp kind) with
+  | error e => rw [hm] at h1; simp at h1
+  | ok ns =>
+    rw [hm] at h1 h2
+    simp only [Except.ok.injEq] at h1 h2
+    subst h1 h2
+    cases fmt
+    · exact hd.xml _ _ _ _
+    · exact hd.pb _ _ _ _
+
+/-! ### The mechanism computes `render` of the writer's own arguments -/
+
+/-- C15, the write call.  For a live writer object `w` (whatever its document holds from earlier calls, whatever the
+    global precision is), the outcome of a write call is the decision table `expected` over the PURE
+    `render c w.fmt w.inp kind w.prec date`: skipped (empty name / existing file kept), raised (a creator raised, or the
+    empty name reached `tree.write`), or `wrote name b` with `render … = ok b`.  Unconditional: every branch is covered. -/
+theorem C15_write_outcome (c : Codec Input Item Node Bytes Date Content) (st : St Input Node Bytes Date)
+    (i : Nat) (w : Writer Input Node Date) (kind : Kind) (file : Option String) (mode : Mode) (a : Bool) (date : Date)
+    (hw : st.ws[i]? = some w) :
+    (step repaired c st (.write i kind file mode a date)).2 = expected c st w kind file mode a date :=
+  writeStep_repaired_outcome c st i w kind file mode a date hw
+
+/-- A write that produced a file: which writer, which name, and that the bytes are `render` of its own arguments. -/
+theorem wrote_repaired (c : Codec Input Item Node Bytes Date Content) (st st' : St Input Node Bytes Date)
+    (i : Nat) (kind : Kind) (file : Option String) (mode : Mode) (a : Bool) (date : Date) (p : String) (b : Bytes)
+    (h : step repaired c st (.write i kind file mode a date) = (st', .wrote p b)) :
+    ∃ w, st.ws[i]? = some w ∧ p = resolveName c w kind file ∧ p ≠ "" ∧
+      render c w.fmt w.inp kind w.prec date = .ok b ∧ st'.fs = setFile st.fs p b ∧ st'.gprec = st.gprec := by
+  have hs := writeStep_shape repaired c st i kind file mode a date _ h
+  obtain ⟨hg, _, hrest⟩ := hs
+  rcases hrest with ⟨_, h2⟩ | ⟨w, p', b', hw, hp, hne, _, ho, hfs⟩
+  · rcases h2 with h2 | ⟨e, h2⟩ <;> simp at h2
+  · simp only [Outcome.wrote.injEq] at ho
+    obtain ⟨rfl, rfl⟩ := ho
+    refine ⟨w, hw, hp, hne, ?_, hfs, hg⟩
+    have ho := C15_write_outcome c st i w kind file mode a date hw
+    rw [h] at ho
+    simp only at ho
+    unfold expected at ho
+    simp only at ho
+    split at ho
+    · simp at ho
+    · split at ho
+      · simp at ho
+      · split at ho
+        · simp at ho
+        · rename_i b'' hr
+          split at ho
+          · simp at ho
+          · simp only [Outcome.wrote.injEq] at ho
+            rw [hr, ho.2]
+
+/-- C15, progress.  A write call on a live writer with a non-empty file name that does not exist yet, or with mode
+    ALWAYS, whose node creators do not raise, DOES produce the file, with content `render` of the writer's own arguments. -/
+theorem C15_progress (c : Codec Input Item Node Bytes Date Content) (st : St Input Node Bytes Date)
+    (i : Nat) (w : Writer Input Node Date) (kind : Kind) (file : Option String) (mode : Mode) (a : Bool) (date : Date)
+    (b : Bytes) (hw : st.ws[i]? = some w) (hne : resolveName c w kind file ≠ "")
+    (hfree : mode = .always ∨ st.fs (resolveName c w kind file) = none)
+    (hr : render c w.fmt w.inp kind w.prec date = .ok b) :
+    (step repaired c st (.write i kind file mode a date)).2 = .wrote (resolveName c w kind file) b ∧
+    (step repaired c st (.write i kind file mode a date)).1.fs (resolveName c w kind file) = some b := by
+  have ho := C15_write_outcome c st i w kind file mode a date hw
+  have hk : ¬ ((st.fs (resolveName c w kind file)).isSome = true ∧ keepExisting mode a = true) := by
+    rcases hfree with h | h
+    · subst h; simp [keepExisting]
+    · simp [h]
+  have he : expected c st w kind file mode a date = .wrote (resolveName c w kind file) b := by
+    have h1 : (resolveName c w kind file = "" && !(w.fmt == Format.xml && kind == Kind.scenarioOnly)) = false := by
+      simp [hne]
+    have h2 : (resolveName c w kind file ≠ "" && (st.fs (resolveName c w kind file)).isSome && keepExisting mode a) = false := by
+      by_cases h3 : (st.fs (resolveName c w kind file)).isSome = true
+      · have : keepExisting mode a = false := by
+          cases hk' : keepExisting mode a
+          · rfl
+          · exact absurd ⟨h3, hk'⟩ hk
+        simp [this]
+      · simp [h3]
+    unfold expected
+    simp only [hr, h1, h2, Bool.false_eq_true, if_false]
+    simp [hne]
+  rw [he] at ho
+  refine ⟨ho, ?_⟩
+  obtain ⟨_, _, hrest⟩ := writeStep_shape repaired c st i kind file mode a date _ rfl
+  simp only [step] at ho
+  rcases hrest with ⟨_, h2⟩ | ⟨w', p', b', hw', hp, _, _, ho', hfs⟩
+  · rw [ho] at h2
+    rcases h2 with h2 | ⟨e, h2⟩ <;> simp at h2
+  · rw [ho] at ho'
+    simp only [Outcome.wrote.injEq] at ho'
+    simp only [step]
+    rw [hfs, ← ho'.1, ← ho'.2]
+    simp [setFile]
+
+/-- C15, progress (exceptions).  If a node creator raises for the writer's own arguments, a call that is not skipped
+    raises that exception, and no file changes. -/
+theorem C15_raising_write_keeps_files (sem : Sem) (c : Codec Input Item Node Bytes Date Content)
+    (st : St Input Node Bytes Date) (i : Nat) (kind : Kind) (file : Option String) (mode : Mode) (a : Bool) (date : Date)
+    (e : Err) (h : (step sem c st (.write i kind file mode a date)).2 = .failed e) :
+    (step sem c st (.write i kind file mode a date)).1.fs = st.fs := by
+  obtain ⟨_, _, hrest⟩ := writeStep_shape sem c st i kind file mode a date _ rfl
+  simp only [step] at h ⊢
+  rcases hrest with ⟨hfs, _⟩ | ⟨_, _, _, _, _, _, _, ho, _⟩
+  · exact hfs
+  · rw [h] at ho; simp at ho
+
+/-- C15 (a), trace form.  In any history, whenever the `n`-th operation is a write call on writer number `i` and it
+    produced a file, the bytes are `render` of the arguments writer `i` was constructed with (`argsOf st ++ newsOf ops`
+    lists the constructor arguments in order of construction) and of the date of that call — whatever else was
+    constructed or written before, in between or on other writers, at whatever precisions. -/
+theorem C15_output_fn (c : Codec Input Item Node Bytes Date Content) (st : St Input Node Bytes Date)
+    (ops : List (Op Input Date)) (n i : Nat) (kind : Kind) (file : Option String) (mode : Mode) (a : Bool) (date : Date)
+    (p : String) (b : Bytes)
+    (hop : ops[n]? = some (.write i kind file mode a date))
     (hout : (runOut repaired c st ops)[n]? = some (.wrote p b)) :
-    ∃ fmt inp prec, (argsOf st ++ newsOf ops)[i]? = some (fmt, inp, prec) ∧ b = render c fmt inp kind prec := by
+    ∃ fmt inp prec, (argsOf st ++ newsOf ops)[i]? = some (fmt, inp, prec) ∧
+      render c fmt inp kind prec date = .ok b := by
   rw [runOut_get repaired c ops st n _ hop] at hout
   simp only [Option.some.injEq] at hout
   obtain ⟨w, hw, _, _, hb, _, _⟩ :=
-    wrote_repaired c (runSt repaired c st (ops.take n)) _ i kind file mode a p b (Prod.ext rfl hout)
+    wrote_repaired c (runSt repaired c st (ops.take n)) _ i kind file mode a date p b (Prod.ext rfl hout)
   refine ⟨w.fmt, w.inp, w.prec, ?_, hb⟩
   have h1 : (argsOf (runSt repaired c st (ops.take n)))[i]? = some (w.fmt, w.inp, w.prec) := by
     simp [argsOf, hw, Writer.args]
@@ -35,24 +165,23 @@ theorem C15_output_fn (c : Codec Input Node Bytes) (st : Proc Input Node Bytes) 
   rw [ht, ← List.append_assoc]
   exact getElem?_append_some _ t i _ h1
 
-/-- C15 (a), explicit form.  After any history `pre`, construct a writer with `(fmt, inp, prec)`; then
-    let ANY history `mid` happen (other writers constructed with other precisions and formats, writes
-    on them and on this one); a write call on this writer that produces a file produces exactly
-    `render c fmt inp kind prec`. -/
-theorem C15_output_fn_explicit (c : Codec Input Node Bytes) (st0 : Proc Input Node Bytes)
-    (pre mid : List (Op Input)) (fmt : Format) (inp : Input) (prec : Nat)
-    (kind : Kind) (file : Option String) (mode : Mode) (a : Bool)
-    (st' : Proc Input Node Bytes) (p : String) (b : Bytes)
+/-- C15 (a), explicit form.  After any history `pre`, construct a writer with `(fmt, inp, prec)`; let ANY history `mid`
+    happen (other writers constructed with other precisions and formats, writes on them and on this one, raising
+    writes); a write call on this writer that produces a file produces `render c fmt inp kind prec date`. -/
+theorem C15_output_fn_explicit (c : Codec Input Item Node Bytes Date Content) (st0 : St Input Node Bytes Date)
+    (pre mid : List (Op Input Date)) (fmt : Format) (inp : Input) (prec : Nat)
+    (kind : Kind) (file : Option String) (mode : Mode) (a : Bool) (date : Date)
+    (st' : St Input Node Bytes Date) (p : String) (b : Bytes)
     (h : step repaired c
           (runSt repaired c (step repaired c (runSt repaired c st0 pre) (.new fmt inp prec)).1 mid)
-          (.write (runSt repaired c st0 pre).ws.length kind file mode a) = (st', .wrote p b)) :
-    b = render c fmt inp kind prec := by
-  obtain ⟨w, hw, _, _, hb, _, _⟩ := wrote_repaired c _ st' _ kind file mode a p b h
+          (.write (runSt repaired c st0 pre).ws.length kind file mode a date) = (st', .wrote p b)) :
+    render c fmt inp kind prec date = .ok b := by
+  obtain ⟨w, hw, _, _, hb, _, _⟩ := wrote_repaired c _ st' _ kind file mode a date p b h
   have h1 : (argsOf (runSt repaired c (step repaired c (runSt repaired c st0 pre) (.new fmt inp prec)).1 mid))[
       (runSt repaired c st0 pre).ws.length]? = some (w.fmt, w.inp, w.prec) := by
     simp [argsOf, hw, Writer.args]
   rw [argsOf_run, argsOf_step] at h1
-  have h2 : (argsOf (runSt repaired c st0 pre) ++ newsOf [Op.new fmt inp prec] ++ newsOf mid)[
+  have h2 : (argsOf (runSt repaired c st0 pre) ++ newsOf [Op.new (Date := Date) fmt inp prec] ++ newsOf mid)[
       (runSt repaired c st0 pre).ws.length]? = some (fmt, inp, prec) := by
     simp [newsOf, argsOf]
   rw [h2] at h1
@@ -60,117 +189,195 @@ theorem C15_output_fn_explicit (c : Codec Input Node Bytes) (st0 : Proc Input No
   obtain ⟨rfl, rfl, rfl⟩ := h1
   exact hb
 
-/-! ### Writing twice, identical writers, other writers in between -/
+/-! ### Writing twice, identical writers, other writers in between — equal "the date stamp aside" -/
 
-/-- C15 (b): two write calls of the same kind on the same writer object, with ANY history in
-    between, give identical content. -/
-theorem C15_twice_same (c : Codec Input Node Bytes) (st : Proc Input Node Bytes) (mid : List (Op Input))
-    (i : Nat) (kind : Kind) (f1 f2 : Option String) (m1 m2 : Mode) (a1 a2 : Bool)
-    (st1 st2 : Proc Input Node Bytes) (p1 p2 : String) (b1 b2 : Bytes)
-    (h1 : step repaired c st (.write i kind f1 m1 a1) = (st1, .wrote p1 b1))
-    (h2 : step repaired c (runSt repaired c st1 mid) (.write i kind f2 m2 a2) = (st2, .wrote p2 b2)) :
-    b1 = b2 := by
-  obtain ⟨w, hw, _, _, hb1, _, _⟩ := wrote_repaired c st st1 i kind f1 m1 a1 p1 b1 h1
-  obtain ⟨w', hw', _, _, hb2, _, _⟩ := wrote_repaired c _ st2 i kind f2 m2 a2 p2 b2 h2
+/-- C15 (b): two write calls of the same kind on the same writer object, on possibly different dates, with ANY history
+    in between, give content that is identical once the date stamp is erased. -/
+theorem C15_twice_same (c : Codec Input Item Node Bytes Date Content) (hd : DateLaw c)
+    (st : St Input Node Bytes Date) (mid : List (Op Input Date))
+    (i : Nat) (kind : Kind) (f1 f2 : Option String) (m1 m2 : Mode) (a1 a2 : Bool) (d1 d2 : Date)
+    (st1 st2 : St Input Node Bytes Date) (p1 p2 : String) (b1 b2 : Bytes)
+    (h1 : step repaired c st (.write i kind f1 m1 a1 d1) = (st1, .wrote p1 b1))
+    (h2 : step repaired c (runSt repaired c st1 mid) (.write i kind f2 m2 a2 d2) = (st2, .wrote p2 b2)) :
+    c.eraseDate b1 = c.eraseDate b2 := by
+  obtain ⟨w, hw, _, _, hb1, _, _⟩ := wrote_repaired c st st1 i kind f1 m1 a1 d1 p1 b1 h1
+  obtain ⟨w', hw', _, _, hb2, _, _⟩ := wrote_repaired c _ st2 i kind f2 m2 a2 d2 p2 b2 h2
   have e0 : (argsOf st)[i]? = some w.args := by simp [argsOf, hw]
   have e1 : (argsOf (runSt repaired c st1 mid))[i]? = some w'.args := by simp [argsOf, hw']
   have hs : argsOf st1 = argsOf st := by
-    have := argsOf_step repaired c st (.write i kind f1 m1 a1)
+    have := argsOf_step repaired c st (.write i kind f1 m1 a1 d1)
     rw [h1] at this
     simpa [newsOf] using this
   rw [argsOf_run, hs, getElem?_append_some _ _ i _ e0] at e1
   simp only [Option.some.injEq, Writer.args, Prod.mk.injEq] at e1
-  rw [hb1, hb2, e1.1, e1.2.1, e1.2.2]
+  rw [e1.1, e1.2.1, e1.2.2] at hb1
+  exact render_eraseDate c hd _ _ _ _ d1 d2 b1 b2 hb1 hb2
 
-/-- C15 (c): constructing or using any other writers in between (any precision, any format) does not
-    change what a writer writes: the content of a write call at `st` and of the same call after an
-    arbitrary history `mid` are the same. -/
-theorem C15_others_do_not_change (c : Codec Input Node Bytes) (st : Proc Input Node Bytes) (mid : List (Op Input))
-    (i : Nat) (kind : Kind) (f1 f2 : Option String) (m1 m2 : Mode) (a1 a2 : Bool)
-    (st1 st2 : Proc Input Node Bytes) (p1 p2 : String) (b1 b2 : Bytes)
-    (h1 : step repaired c st (.write i kind f1 m1 a1) = (st1, .wrote p1 b1))
-    (h2 : step repaired c (runSt repaired c st mid) (.write i kind f2 m2 a2) = (st2, .wrote p2 b2)) :
-    b1 = b2 := by
-  obtain ⟨w, hw, _, _, hb1, _, _⟩ := wrote_repaired c st st1 i kind f1 m1 a1 p1 b1 h1
-  obtain ⟨w', hw', _, _, hb2, _, _⟩ := wrote_repaired c _ st2 i kind f2 m2 a2 p2 b2 h2
+/-- C15 (c): constructing or using any other writers in between (any precision, any format) does not change what a
+    writer writes: the content of a write call at `st` and of the same call after an arbitrary history `mid`
+    (on another date) agree once the date stamp is erased. -/
+theorem C15_others_do_not_change (c : Codec Input Item Node Bytes Date Content) (hd : DateLaw c)
+    (st : St Input Node Bytes Date) (mid : List (Op Input Date))
+    (i : Nat) (kind : Kind) (f1 f2 : Option String) (m1 m2 : Mode) (a1 a2 : Bool) (d1 d2 : Date)
+    (st1 st2 : St Input Node Bytes Date) (p1 p2 : String) (b1 b2 : Bytes)
+    (h1 : step repaired c st (.write i kind f1 m1 a1 d1) = (st1, .wrote p1 b1))
+    (h2 : step repaired c (runSt repaired c st mid) (.write i kind f2 m2 a2 d2) = (st2, .wrote p2 b2)) :
+    c.eraseDate b1 = c.eraseDate b2 := by
+  obtain ⟨w, hw, _, _, hb1, _, _⟩ := wrote_repaired c st st1 i kind f1 m1 a1 d1 p1 b1 h1
+  obtain ⟨w', hw', _, _, hb2, _, _⟩ := wrote_repaired c _ st2 i kind f2 m2 a2 d2 p2 b2 h2
   have e0 : (argsOf st)[i]? = some w.args := by simp [argsOf, hw]
   have e1 : (argsOf (runSt repaired c st mid))[i]? = some w'.args := by simp [argsOf, hw']
   rw [argsOf_run, getElem?_append_some _ _ i _ e0] at e1
   simp only [Option.some.injEq, Writer.args, Prod.mk.injEq] at e1
-  rw [hb1, hb2, e1.1, e1.2.1, e1.2.2]
+  rw [e1.1, e1.2.1, e1.2.2] at hb1
+  exact render_eraseDate c hd _ _ _ _ d1 d2 b1 b2 hb1 hb2
 
-/-- C15 (d): two writers constructed identically give identical content — in whatever two states
-    (of one history or of two unrelated ones) they are asked to write. -/
-theorem C15_identical_writers_same (c : Codec Input Node Bytes) (st st' : Proc Input Node Bytes)
-    (i j : Nat) (w w' : Writer Input Node) (kind : Kind) (f1 f2 : Option String) (m1 m2 : Mode) (a1 a2 : Bool)
-    (s1 s2 : Proc Input Node Bytes) (p1 p2 : String) (b1 b2 : Bytes)
+/-- C15 (d): two writers constructed identically give identical content, date stamp aside — in whatever two states (of
+    one history or of two unrelated ones, whatever their documents hold) they are asked to write. -/
+theorem C15_identical_writers_same (c : Codec Input Item Node Bytes Date Content) (hd : DateLaw c)
+    (st st' : St Input Node Bytes Date)
+    (i j : Nat) (w w' : Writer Input Node Date) (kind : Kind) (f1 f2 : Option String) (m1 m2 : Mode) (a1 a2 : Bool)
+    (d1 d2 : Date) (s1 s2 : St Input Node Bytes Date) (p1 p2 : String) (b1 b2 : Bytes)
     (hw : st.ws[i]? = some w) (hw' : st'.ws[j]? = some w') (hargs : w.args = w'.args)
-    (h1 : step repaired c st (.write i kind f1 m1 a1) = (s1, .wrote p1 b1))
-    (h2 : step repaired c st' (.write j kind f2 m2 a2) = (s2, .wrote p2 b2)) :
-    b1 = b2 := by
-  obtain ⟨v, hv, _, _, hb1, _, _⟩ := wrote_repaired c st s1 i kind f1 m1 a1 p1 b1 h1
-  obtain ⟨v', hv', _, _, hb2, _, _⟩ := wrote_repaired c st' s2 j kind f2 m2 a2 p2 b2 h2
+    (h1 : step repaired c st (.write i kind f1 m1 a1 d1) = (s1, .wrote p1 b1))
+    (h2 : step repaired c st' (.write j kind f2 m2 a2 d2) = (s2, .wrote p2 b2)) :
+    c.eraseDate b1 = c.eraseDate b2 := by
+  obtain ⟨v, hv, _, _, hb1, _, _⟩ := wrote_repaired c st s1 i kind f1 m1 a1 d1 p1 b1 h1
+  obtain ⟨v', hv', _, _, hb2, _, _⟩ := wrote_repaired c st' s2 j kind f2 m2 a2 d2 p2 b2 h2
   rw [hw] at hv
   rw [hw'] at hv'
   simp only [Option.some.injEq] at hv hv'
   subst hv hv'
   simp only [Writer.args, Prod.mk.injEq] at hargs
-  rw [hb1, hb2, hargs.1, hargs.2.1, hargs.2.2]
+  rw [hargs.1, hargs.2.1, hargs.2.2] at hb1
+  exact render_eraseDate c hd _ _ _ _ d1 d2 b1 b2 hb1 hb2
 
-/-- C15 (d), trace form: in one history, two write calls of the same kind on writers that were
-    constructed with the same arguments give identical content. -/
-theorem C15_identical_writers_trace (c : Codec Input Node Bytes) (st : Proc Input Node Bytes) (ops : List (Op Input))
-    (n1 n2 i1 i2 : Nat) (kind : Kind) (f1 f2 : Option String) (m1 m2 : Mode) (a1 a2 : Bool)
+/-- C15 (d), trace form: in one history, two write calls of the same kind on writers that were constructed with the
+    same arguments give identical content, date stamp aside. -/
+theorem C15_identical_writers_trace (c : Codec Input Item Node Bytes Date Content) (hd : DateLaw c)
+    (st : St Input Node Bytes Date) (ops : List (Op Input Date))
+    (n1 n2 i1 i2 : Nat) (kind : Kind) (f1 f2 : Option String) (m1 m2 : Mode) (a1 a2 : Bool) (d1 d2 : Date)
     (p1 p2 : String) (b1 b2 : Bytes)
-    (hop1 : ops[n1]? = some (.write i1 kind f1 m1 a1)) (hop2 : ops[n2]? = some (.write i2 kind f2 m2 a2))
+    (hop1 : ops[n1]? = some (.write i1 kind f1 m1 a1 d1)) (hop2 : ops[n2]? = some (.write i2 kind f2 m2 a2 d2))
     (hout1 : (runOut repaired c st ops)[n1]? = some (.wrote p1 b1))
     (hout2 : (runOut repaired c st ops)[n2]? = some (.wrote p2 b2))
     (hsame : (argsOf st ++ newsOf ops)[i1]? = (argsOf st ++ newsOf ops)[i2]?) :
-    b1 = b2 := by
-  obtain ⟨fm, inp, pr, e1, hb1⟩ := C15_output_fn c st ops n1 i1 kind f1 m1 a1 p1 b1 hop1 hout1
-  obtain ⟨fm', inp', pr', e2, hb2⟩ := C15_output_fn c st ops n2 i2 kind f2 m2 a2 p2 b2 hop2 hout2
+    c.eraseDate b1 = c.eraseDate b2 := by
+  obtain ⟨fm, inp, pr, e1, hb1⟩ := C15_output_fn c st ops n1 i1 kind f1 m1 a1 d1 p1 b1 hop1 hout1
+  obtain ⟨fm', inp', pr', e2, hb2⟩ := C15_output_fn c st ops n2 i2 kind f2 m2 a2 d2 p2 b2 hop2 hout2
   rw [hsame, e2] at e1
   simp only [Option.some.injEq, Prod.mk.injEq] at e1
-  rw [hb1, hb2, e1.1, e1.2.1, e1.2.2]
+  rw [e1.1, e1.2.1, e1.2.2] at hb2
+  exact render_eraseDate c hd _ _ _ _ d1 d2 b1 b2 hb1 hb2
 
-/-- Identical content reads back identically, for any reader. -/
-theorem C15_readback_same {α : Type} (parse : Bytes → α) (b1 b2 : Bytes) (h : b1 = b2) : parse b1 = parse b2 :=
-  congrArg parse h
+/-! ### "…and each such file reads back to the same scenario" -/
+
+/-- C15 (r): under the round-trip law for rendered files, EVERY file a write call produces in any history reads back
+    (the reader does not raise) — to `proj` of the arguments its writer was constructed with. -/
+theorem C15_reads_back (c : Codec Input Item Node Bytes Date Content) (proj : Format → Input → Kind → Nat → Content)
+    (hr : ReadLaw c proj) (st : St Input Node Bytes Date) (ops : List (Op Input Date))
+    (n i : Nat) (kind : Kind) (file : Option String) (mode : Mode) (a : Bool) (date : Date) (p : String) (b : Bytes)
+    (hop : ops[n]? = some (.write i kind file mode a date))
+    (hout : (runOut repaired c st ops)[n]? = some (.wrote p b)) :
+    ∃ fmt inp prec, (argsOf st ++ newsOf ops)[i]? = some (fmt, inp, prec) ∧ c.read b = some (proj fmt inp kind prec) := by
+  obtain ⟨fm, inp, pr, e1, hb⟩ := C15_output_fn c st ops n i kind file mode a date p b hop hout
+  exact ⟨fm, inp, pr, e1, hr.read_render _ _ _ _ _ _ hb⟩
+
+/-- C15 (r): the files of two write calls of the same kind on the same writer or on identically constructed writers
+    (any dates, anything in between) both read back, and to the same value. -/
+theorem C15_read_back_same (c : Codec Input Item Node Bytes Date Content) (proj : Format → Input → Kind → Nat → Content)
+    (hr : ReadLaw c proj) (st : St Input Node Bytes Date) (ops : List (Op Input Date))
+    (n1 n2 i1 i2 : Nat) (kind : Kind) (f1 f2 : Option String) (m1 m2 : Mode) (a1 a2 : Bool) (d1 d2 : Date)
+    (p1 p2 : String) (b1 b2 : Bytes)
+    (hop1 : ops[n1]? = some (.write i1 kind f1 m1 a1 d1)) (hop2 : ops[n2]? = some (.write i2 kind f2 m2 a2 d2))
+    (hout1 : (runOut repaired c st ops)[n1]? = some (.wrote p1 b1))
+    (hout2 : (runOut repaired c st ops)[n2]? = some (.wrote p2 b2))
+    (hsame : (argsOf st ++ newsOf ops)[i1]? = (argsOf st ++ newsOf ops)[i2]?) :
+    c.read b1 = c.read b2 ∧ (c.read b1).isSome = true := by
+  obtain ⟨fm, inp, pr, e1, r1⟩ := C15_reads_back c proj hr st ops n1 i1 kind f1 m1 a1 d1 p1 b1 hop1 hout1
+  obtain ⟨fm', inp', pr', e2, r2⟩ := C15_reads_back c proj hr st ops n2 i2 kind f2 m2 a2 d2 p2 b2 hop2 hout2
+  rw [hsame, e2] at e1
+  simp only [Option.some.injEq, Prod.mk.injEq] at e1
+  rw [r1, r2, e1.1, e1.2.1, e1.2.2]
+  exact ⟨rfl, rfl⟩
+
+/-! ### The global precision -/
+
+/-- A write call leaves `precision.decimals` as it found it — the XML writer assigns it (installs its own precision) and
+    the `finally` puts the saved value back, also when a node creator raises; holds for both variants (`legacy` never
+    assigns it in a write). -/
+theorem C15_write_restores_global_precision (sem : Sem) (c : Codec Input Item Node Bytes Date Content)
+    (st : St Input Node Bytes Date) (i : Nat) (kind : Kind) (file : Option String) (mode : Mode) (a : Bool) (date : Date) :
+    (step sem c st (.write i kind file mode a date)).1.gprec = st.gprec :=
+  step_gprec_write sem c st i kind file mode a date
+
+/-- Between calls the global precision is what the last constructor set (or the start value if none ran): after ANY
+    history, including raising writes. -/
+theorem C15_global_precision_between_calls (sem : Sem) (c : Codec Input Item Node Bytes Date Content)
+    (st : St Input Node Bytes Date) (ops : List (Op Input Date)) :
+    (runSt sem c st ops).gprec = precAfter st.gprec ops :=
+  gprec_run sem c ops st
+
+/-- During a write the global precision is the writer's own, and the document is this call's alone: after a write
+    call that produced a file, the writer's document holds exactly `mkNodes` of this call's objects at the writer's own
+    precision (nothing from earlier calls), and the date of this call. -/
+theorem C15_document_after_write (c : Codec Input Item Node Bytes Date Content) (st st' : St Input Node Bytes Date)
+    (i : Nat) (kind : Kind) (file : Option String) (mode : Mode) (a : Bool) (date : Date) (p : String) (b : Bytes)
+    (h : step repaired c st (.write i kind file mode a date) = (st', .wrote p b)) :
+    ∃ w ns, st.ws[i]? = some w ∧ mkNodes (creator c w.fmt w.prec) (itemsOf c w.inp kind) = .ok ns ∧
+      st'.ws[i]? = some { w with date := some date, root := ns } := by
+  obtain ⟨w, hw, _, _, hb, _, _⟩ := wrote_repaired c st st' i kind file mode a date p b h
+  have hbf := buildFor_repaired c st i w kind date hw
+  unfold render at hb
+  cases hm : mkNodes (creator c w.fmt w.prec) (itemsOf c w.inp kind) with
+  | error e => rw [hm] at hb; simp at hb
+  | ok ns =>
+    refine ⟨w, ns, hw, hm, ?_⟩
+    rw [hm] at hbf
+    simp only at hbf
+    simp only [step, writeStep, hw] at h
+    split at h
+    · simp at h
+    · split at h
+      · simp at h
+      · rw [hbf] at h
+        simp only at h
+        split at h
+        · simp at h
+        · have hg : (DocOf st i w (some date) ns).ws[i]? = some { w with date := some date, root := ns } :=
+            setWriter_get st i w _ hw
+          simp only [hg, Prod.mk.injEq] at h
+          rw [← h.1]
+          exact hg
 
 /-! ### Frame conditions and SKIP -/
 
-/-- A write call does not touch the global precision (it is restored), in either variant. -/
-theorem C15_write_keeps_global_precision (sem : Sem) (c : Codec Input Node Bytes) (st : Proc Input Node Bytes)
-    (i : Nat) (kind : Kind) (file : Option String) (mode : Mode) (a : Bool) :
-    (step sem c st (.write i kind file mode a)).1.gprec = st.gprec :=
-  step_gprec_write sem c st i kind file mode a
-
 /-- A write call changes at most the one file it reports. -/
-theorem C15_write_frame (sem : Sem) (c : Codec Input Node Bytes) (st : Proc Input Node Bytes)
-    (i : Nat) (kind : Kind) (file : Option String) (mode : Mode) (a : Bool) (q : String) :
-    (step sem c st (.write i kind file mode a)).1.fs q = st.fs q ∨
-    ∃ b, (step sem c st (.write i kind file mode a)).2 = .wrote q b := by
-  obtain ⟨_, _, h⟩ := writeStep_cases sem c st i kind file mode a _ rfl
+theorem C15_write_frame (sem : Sem) (c : Codec Input Item Node Bytes Date Content) (st : St Input Node Bytes Date)
+    (i : Nat) (kind : Kind) (file : Option String) (mode : Mode) (a : Bool) (date : Date) (q : String) :
+    (step sem c st (.write i kind file mode a date)).1.fs q = st.fs q ∨
+    ∃ b, (step sem c st (.write i kind file mode a date)).2 = .wrote q b := by
+  obtain ⟨_, _, h⟩ := writeStep_shape sem c st i kind file mode a date _ rfl
   simp only [step]
-  rcases h with ⟨hfs, _⟩ | ⟨w, p, b, _, _, _, _, ho, hfs, _⟩
+  rcases h with ⟨hfs, _⟩ | ⟨w, p, b, _, _, _, _, ho, hfs⟩
   · left; rw [hfs]
   · by_cases hq : q = p
     · right; exact ⟨b, by rw [ho, hq]⟩
     · left; rw [hfs]; simp [setFile, hq]
 
-/-- Constructing a writer touches no file. -/
-theorem C15_new_keeps_files (sem : Sem) (c : Codec Input Node Bytes) (st : Proc Input Node Bytes)
+/-- (definitional: documents the model, carries no proof content) Constructing a writer touches no file. -/
+theorem C15_new_keeps_files (sem : Sem) (c : Codec Input Item Node Bytes Date Content) (st : St Input Node Bytes Date)
     (fmt : Format) (inp : Input) (prec : Nat) : (step sem c st (.new fmt inp prec)).1.fs = st.fs := rfl
 
-/-- C15 (e): with overwrite mode SKIP every existing file is left byte-for-byte untouched
-    (either variant of the code; any writer, any file name, also the default name). -/
-theorem C15_skip_untouched (sem : Sem) (c : Codec Input Node Bytes) (st : Proc Input Node Bytes)
-    (i : Nat) (kind : Kind) (file : Option String) (a : Bool) (q : String) (b : Bytes)
+/-- C15 (e): with overwrite mode SKIP every existing file is left byte-for-byte untouched (either variant of the code;
+    any writer, any file name, also the default name). -/
+theorem C15_skip_untouched (sem : Sem) (c : Codec Input Item Node Bytes Date Content) (st : St Input Node Bytes Date)
+    (i : Nat) (kind : Kind) (file : Option String) (a : Bool) (date : Date) (q : String) (b : Bytes)
     (hq : st.fs q = some b) :
-    (step sem c st (.write i kind file .skip a)).1.fs q = some b := by
-  obtain ⟨_, _, h⟩ := writeStep_cases sem c st i kind file .skip a _ rfl
+    (step sem c st (.write i kind file .skip a date)).1.fs q = some b := by
+  obtain ⟨_, _, h⟩ := writeStep_shape sem c st i kind file .skip a date _ rfl
   simp only [step]
-  rcases h with ⟨hfs, _⟩ | ⟨w, p, b', _, _, _, hk, _, hfs, _⟩
+  rcases h with ⟨hfs, _⟩ | ⟨w, p, b', _, _, _, hk, _, hfs⟩
   · rw [hfs, hq]
   · have hne : q ≠ p := by
       intro e
@@ -181,87 +388,124 @@ theorem C15_skip_untouched (sem : Sem) (c : Codec Input Node Bytes) (st : Proc I
     simp [setFile, hne, hq]
 
 /-- Every write of a history uses SKIP. -/
-def AllSkip : List (Op Input) → Prop
+def AllSkip : List (Op Input Date) → Prop
   | [] => True
   | .new _ _ _ :: r => AllSkip r
-  | .write _ _ _ m _ :: r => m = .skip ∧ AllSkip r
+  | .write _ _ _ m _ _ :: r => m = .skip ∧ AllSkip r
 
-/-- C15 (e), history form: a whole history of constructions and SKIP-mode writes leaves every file
-    that existed at its start byte-for-byte untouched. -/
-theorem C15_skip_untouched_run (sem : Sem) (c : Codec Input Node Bytes) :
-    ∀ (ops : List (Op Input)) (st : Proc Input Node Bytes) (q : String) (b : Bytes),
+/-- C15 (e), history form: a whole history of constructions and SKIP-mode writes leaves every file that existed at its
+    start byte-for-byte untouched. -/
+theorem C15_skip_untouched_run (sem : Sem) (c : Codec Input Item Node Bytes Date Content) :
+    ∀ (ops : List (Op Input Date)) (st : St Input Node Bytes Date) (q : String) (b : Bytes),
       AllSkip ops → st.fs q = some b → (runSt sem c st ops).fs q = some b
   | [], _, _, _, _, hq => hq
   | .new f i p :: r, st, q, b, hs, hq => by
     rw [runSt_cons]
     exact C15_skip_untouched_run sem c r _ q b hs hq
-  | .write i k f m a :: r, st, q, b, hs, hq => by
+  | .write i k f m a d :: r, st, q, b, hs, hq => by
     rw [runSt_cons]
     obtain ⟨hm, hr⟩ := hs
     subst hm
-    exact C15_skip_untouched_run sem c r _ q b hr (C15_skip_untouched sem c st i k f a q b hq)
+    exact C15_skip_untouched_run sem c r _ q b hr (C15_skip_untouched sem c st i k f a d q b hq)
 
-/-- With SKIP on an existing, named file nothing at all happens: no file, no writer object, no
-    global changes. -/
-theorem C15_skip_existing_is_noop (sem : Sem) (c : Codec Input Node Bytes) (st : Proc Input Node Bytes)
-    (i : Nat) (kind : Kind) (p : String) (a : Bool) (b : Bytes) (w : Writer Input Node)
+/-- With SKIP on an existing, named file nothing at all happens: no file, no document, no global changes. -/
+theorem C15_skip_existing_is_noop (sem : Sem) (c : Codec Input Item Node Bytes Date Content) (st : St Input Node Bytes Date)
+    (i : Nat) (kind : Kind) (p : String) (a : Bool) (date : Date) (b : Bytes) (w : Writer Input Node Date)
     (hw : st.ws[i]? = some w) (hp : p ≠ "") (hq : st.fs p = some b) :
-    step sem c st (.write i kind (some p) .skip a) = (st, .skipped) := by
+    step sem c st (.write i kind (some p) .skip a date) = (st, .skipped) := by
   simp [step, writeStep, hw, resolveName, hp, hq, keepExisting]
 
-/-! ### Non-vacuity, and the two former defects as theorems about the `legacy` variant -/
+/-! ### Non-vacuity, the laws are satisfiable, and the two former defects as theorems about `legacy` -/
 
 section Witness
 
-def inA : SInput := ⟨0, "A"⟩
+def symProj (fmt : Format) (inp : SInput) (kind : Kind) (prec : Nat) : SContent :=
+  ⟨fmt, inp.id, kind == .full, match fmt with | .xml => prec | .pb => 0⟩
+
+/-- The symbolic codec satisfies the date law … -/
+theorem symCodec_dateLaw : DateLaw symCodec := ⟨fun _ _ _ _ => rfl, fun _ _ _ _ => rfl⟩
+
+/-- … and the round-trip law. -/
+theorem symCodec_readLaw : ReadLaw symCodec symProj := by
+  constructor
+  intro fmt inp kind prec date b h
+  cases fmt <;> cases kind <;>
+    simp only [render, itemsOf, symCodec, mkNodes, creator, dump, List.cons_append, List.nil_append] at h
+  all_goals (
+    revert h
+    cases inp.xmlErr <;> cases inp.pbErr <;> intro h <;> simp at h <;> subst h <;> simp [symCodec, symRead, symProj])
+
+def inA : SInput := { id := 0, name := "A" }
+
+/-- an input whose planning problems cannot be written (a goal time interval with float ends) -/
+def inBad : SInput := { id := 1, name := "B", xmlErr := some .assert, pbErr := some .type }
 
 def fs0 : String → Option SBytes := fun q => if q = "old.xml" then some (.foreign 7) else none
 
-def st0 : Proc SInput SNode SBytes := ⟨4, fs0, []⟩
+def st0 : St SInput SNode SBytes String := ⟨4, fs0, []⟩
 
-/-- A writer (precision 6), a protobuf writer (precision 2) constructed in between, two writes of
-    the first writer, one write with SKIP on an existing file, one with SKIP on a new name. -/
-def hist : List (Op SInput) :=
-  [.new .xml inA 6, .write 0 .full (some "a.xml") .always false, .new .pb inA 2,
-   .write 0 .full (some "b.xml") .always false, .write 1 .full (some "old.xml") .skip false,
-   .write 1 .scenarioOnly none .skip false]
+/-- A writer (precision 6), a protobuf writer (precision 2) constructed in between, two writes of the first writer on
+    different dates, one write with SKIP on an existing file, one with SKIP on a new name. -/
+def hist : List (Op SInput String) :=
+  [.new .xml inA 6, .write 0 .full (some "a.xml") .always false "d1", .new .pb inA 2,
+   .write 0 .full (some "b.xml") .always false "d2", .write 1 .full (some "old.xml") .skip false "d3",
+   .write 1 .scenarioOnly none .skip false "d4"]
 
-/-- The hypotheses of the theorems above are met by a concrete history: both writes of writer 0
-    produce a file, with the content the theorems name. -/
+/-- The hypotheses of the theorems above are met by a concrete history: both writes of writer 0 produce a file, with the
+    content the theorems name; the global precision is that of the last constructor throughout. -/
 example : runOut repaired symCodec st0 hist =
-    [.created 0, .wrote "a.xml" (render symCodec .xml inA .full 6), .created 1,
-     .wrote "b.xml" (render symCodec .xml inA .full 6), .skipped,
-     .wrote "A.pb" (render symCodec .pb inA .scenarioOnly 2)] := by decide
+    [.created 0, .wrote "a.xml" (.file .xml 0 (some "d1") [⟨false, 0, 6⟩, ⟨true, 0, 6⟩]), .created 1,
+     .wrote "b.xml" (.file .xml 0 (some "d2") [⟨false, 0, 6⟩, ⟨true, 0, 6⟩]), .skipped,
+     .wrote "A.pb" (.file .pb 0 (some "d4") [⟨false, 0, 0⟩])] := by decide
+
+example : render symCodec .xml inA .full 6 "d2" = .ok (.file .xml 0 (some "d2") [⟨false, 0, 6⟩, ⟨true, 0, 6⟩]) := by decide
+
+example : runGprecs repaired symCodec st0 hist = [6, 6, 2, 2, 2, 2] := by decide
 
 example : (runSt repaired symCodec st0 hist).fs "old.xml" = some (.foreign 7) := by decide
 
-example : hist[3]? = some (.write 0 .full (some "b.xml") .always false) := rfl
+example : AllSkip (Input := SInput) (Date := String)
+    [.new .xml inA 6, .write 0 .full (some "old.xml") .skip false "d"] := ⟨rfl, trivial⟩
 
-example : AllSkip (Input := SInput) [.new .xml inA 6, .write 0 .full (some "old.xml") .skip false] := ⟨rfl, trivial⟩
+/-- A raising write in between: the XML writer of `inBad` (precision 9) raises inside the `with`-block after the
+    scenario block was appended; the global precision is back at 2 afterwards, no file appears, and the next writes —
+    of this writer (scenario only) and of writer 0 — are as they should be. -/
+example : runOut repaired symCodec st0
+      [.new .xml inA 6, .new .xml inBad 9, .new .pb inA 2, .write 1 .full (some "c.xml") .always false "d1",
+       .write 1 .scenarioOnly (some "c.xml") .always false "d2", .write 0 .full (some "a.xml") .always false "d3"] =
+    [.created 0, .created 1, .created 2, .failed .assert,
+     .wrote "c.xml" (.file .xml 1 (some "d2") [⟨false, 1, 9⟩]),
+     .wrote "a.xml" (.file .xml 0 (some "d3") [⟨false, 0, 6⟩, ⟨true, 0, 6⟩])] ∧
+    runGprecs repaired symCodec st0
+      [.new .xml inA 6, .new .xml inBad 9, .new .pb inA 2, .write 1 .full (some "c.xml") .always false "d1",
+       .write 1 .scenarioOnly (some "c.xml") .always false "d2", .write 0 .full (some "a.xml") .always false "d3"] =
+    [6, 9, 2, 2, 2, 2] := by decide
 
-/-- Former defect 1 (root element created once in `__init__`): under `legacy` the second write of
-    the same writer object holds the content twice — `C15_twice_same` fails for `legacy`. -/
+/-- Former defect 1 (root element created once in `__init__`): under `legacy` the second write of the same writer object
+    holds the content twice (and does not read back) — `C15_twice_same` and `C15_reads_back` fail for `legacy`. -/
 theorem C15_legacy_second_write_doubles :
-    (runOut legacy symCodec st0 [.new .xml inA 6, .write 0 .full (some "a.xml") .always false,
-        .write 0 .full (some "b.xml") .always false])[2]? =
-      some (.wrote "b.xml" (.file .xml 0 [⟨false, 0, 6⟩, ⟨true, 0, 6⟩, ⟨false, 0, 6⟩, ⟨true, 0, 6⟩])) := by decide
+    (runOut legacy symCodec st0 [.new .xml inA 6, .write 0 .full (some "a.xml") .always false "d1",
+        .write 0 .full (some "b.xml") .always false "d2"])[2]? =
+      some (.wrote "b.xml" (.file .xml 0 (some "d2") [⟨false, 0, 6⟩, ⟨true, 0, 6⟩, ⟨false, 0, 6⟩, ⟨true, 0, 6⟩])) ∧
+    symCodec.read (.file .xml 0 (some "d2") [⟨false, 0, 6⟩, ⟨true, 0, 6⟩, ⟨false, 0, 6⟩, ⟨true, 0, 6⟩]) = none := by
+  decide
 
-/-- Former defect 2 (precision read from the process-global at write time): under `legacy` a
-    protobuf writer with precision 2 constructed in between changes what the XML writer with
-    precision 6 writes — `C15_others_do_not_change` fails for `legacy`. -/
+/-- Former defect 2 (precision read from the process-global at write time, never installed): under `legacy` a protobuf
+    writer with precision 2 constructed in between changes what the XML writer with precision 6 writes —
+    `C15_others_do_not_change` fails for `legacy`. -/
 theorem C15_legacy_precision_of_other_writer :
     (runOut legacy symCodec st0 [.new .xml inA 6, .new .pb inA 2,
-        .write 0 .full (some "a.xml") .always false])[2]? =
-      some (.wrote "a.xml" (.file .xml 0 [⟨false, 0, 2⟩, ⟨true, 0, 2⟩])) := by decide
+        .write 0 .full (some "a.xml") .always false "d1"])[2]? =
+      some (.wrote "a.xml" (.file .xml 0 (some "d1") [⟨false, 0, 2⟩, ⟨true, 0, 2⟩])) := by decide
 
 /-- … while the code as it is now gives the writer's own precision, once. -/
 theorem C15_repaired_on_the_same_histories :
-    (runOut repaired symCodec st0 [.new .xml inA 6, .write 0 .full (some "a.xml") .always false,
-        .write 0 .full (some "b.xml") .always false])[2]? =
-      some (.wrote "b.xml" (.file .xml 0 [⟨false, 0, 6⟩, ⟨true, 0, 6⟩])) ∧
+    (runOut repaired symCodec st0 [.new .xml inA 6, .write 0 .full (some "a.xml") .always false "d1",
+        .write 0 .full (some "b.xml") .always false "d2"])[2]? =
+      some (.wrote "b.xml" (.file .xml 0 (some "d2") [⟨false, 0, 6⟩, ⟨true, 0, 6⟩])) ∧
     (runOut repaired symCodec st0 [.new .xml inA 6, .new .pb inA 2,
-        .write 0 .full (some "a.xml") .always false])[2]? =
-      some (.wrote "a.xml" (.file .xml 0 [⟨false, 0, 6⟩, ⟨true, 0, 6⟩])) := by decide
+        .write 0 .full (some "a.xml") .always false "d1"])[2]? =
+      some (.wrote "a.xml" (.file .xml 0 (some "d1") [⟨false, 0, 6⟩, ⟨true, 0, 6⟩])) := by decide
 
 end Witness
 
